@@ -924,6 +924,24 @@ def non_monotone_divergence(pm):
     return False
 
 
+def family_twice(terms, nts=("E", "A"), max_alt_len=2, max_alts=4):
+    """Directed family "one symbol completed twice in one text under different lookaheads": A gets every
+    ordered list of 2..max_alts distinct non-empty alternatives of length <= max_alt_len over the
+    terminals such that two of them share their first terminal (a factorized group) and one starts with
+    another terminal (a plain production next to the group); E -> A A and E -> A A t.  Every per-parse
+    memo keyed by a position in the look-ahead's candidate list instead of the production meets both
+    kinds of production at one key here."""
+    e, a = nts
+    pool = [alt for alt in alternatives(tuple(terms[:2]), max_alt_len) if alt]
+    for n in range(2, max_alts + 1):
+        for alts in itertools.permutations(pool, n):
+            firsts = [x[0] for x in alts]
+            if len(set(firsts)) < 2 or len(set(firsts)) == len(firsts):
+                continue
+            for tail in ((), (terms[0],)):
+                yield ((e, ((a, a) + tail,)), (a, tuple(alts)))
+
+
 def family_hidden(names, terms, max_prefix=2):
     """C03 directed family: a (possibly) recursive symbol behind nullable prefixes, over a given
     assignment ``names`` = (R, S, N, M) of names to roles.
